@@ -319,6 +319,10 @@ def check_config(cfg, w, rep):
                     # an operation whose failure the caller must hear about
                     rep.ob(cfg, "R1-existence-probe", key, "`%s` uses metadata().%s() as an existence probe" % (short(lf.path), kind))
                     continue
+                if kind in ("matched-and-dropped", "is_err", "is_ok") and recovery_is_truthful(prog, b, blk, t):
+                    rep.ob(cfg, "R1-replaced-by-recovery", key, "`%s`: when `%s` fails, everything reported afterwards is an error or the outcome of "
+                           "another fallible step (a recovery), never an unconditional success" % (short(lf.path), norm_callee(t.callee.path)))
+                    continue
                 tk = (short(lf.path), norm_callee(t.callee.path), kind)
                 if tk in TOLERATED:
                     n_tol += 1
@@ -381,6 +385,68 @@ def check_config(cfg, w, rep):
                 rep.violation("R2:%s:%s" % (fn_key(lf), ",".join(sorted(norm_callee(o.callee.path) for o in srcs))[:80]),
                               "`%s` unwraps the result of a fallible filesystem operation: an I/O error becomes a panic" % short(lf.path),
                               loc=span_str(t.span), config=cfg, rule="R2-no-unwrap")
+
+
+def recovery_is_truthful(prog, b, blk, t):
+    """The result of call `t` is matched / tested and its error value dropped. That is truthful if, on the failure side, whatever
+    the function (or closure) reports afterwards — its return values, the values it sends on a result channel — is an Err(..) or
+    derives (Ok-preserving flow) from ANOTHER fallible call made on that side, e.g. the existence check that decides whether
+    the failure can be tolerated. An unconditional Ok(..) on the failure side is what the rule is there to catch."""
+    cf = prog.cfg(b)
+
+    def is_t(o):
+        return o.kind == "call" and o.term is t and o.path in ((), (("await",),))
+    fail_starts = set()
+    for g in match_gates(prog, b, is_t, "Ok"):
+        for (u, v) in g.other_edges:
+            fail_starts.add(v)
+
+    def is_err_of_t(o):
+        return o.kind == "call" and o.callee is not None and o.callee.path == "std::result::Result::<T, E>::is_err" and \
+            any(x.kind == "call" and x.term is t for x in prog.resolve_op(o.body, o.term.args[0], OKFLOW, o.blk))
+
+    def is_ok_of_t(o):
+        return o.kind == "call" and o.callee is not None and o.callee.path == "std::result::Result::<T, E>::is_ok" and \
+            any(x.kind == "call" and x.term is t for x in prog.resolve_op(o.body, o.term.args[0], OKFLOW, o.blk))
+    for g in bool_gates(prog, b, is_err_of_t, True):
+        fail_starts.add(g.edge[1])
+    for g in bool_gates(prog, b, is_ok_of_t, False):
+        fail_starts.add(g.edge[1])
+    if not fail_starts:
+        return False
+    reach = set()
+    for v in fail_starts:
+        reach |= cf.reachable(v)
+    reports = []
+    for rd in ret_defs(prog, b):
+        if rd.blk in reach:
+            reports.append(("ret", rd))
+    for bb, tt in b.calls():
+        if bb.i in reach and tt.callee is not None and tt.callee.path.endswith("oneshot::Sender::<T>::send"):
+            reports.append(("send", (bb, tt)))
+    if not reports:
+        return False
+    for kind, x in reports:
+        if kind == "ret":
+            if x.cls in ("failure", "neutral"):
+                continue
+            if x.cls == "delegated" and x.origin is not None and x.origin.kind == "call" and x.origin.term is not t and is_source(x.origin.term):
+                continue
+            if b.def_kind == "Closure" and x.cls in ("success", "unknown") and any(k_ == "send" for k_, _ in reports):
+                continue       # the closure's own value (next state), not a report
+            return False
+        else:
+            bb, tt = x
+            leaves = prog.resolve_op(b, tt.args[1], OKFLOW, bb.i)
+            if not leaves:
+                return False
+            for o in leaves:
+                if o.kind == "agg" and o.info.j.get("agg") == "adt" and o.info.j.get("variant") == "Err":
+                    continue
+                if o.kind == "call" and o.term is not t and o.callee is not None and is_source(o.term):
+                    continue
+                return False
+    return True
 
 
 def discard_kind(prog, b, blk, t):
